@@ -206,9 +206,43 @@ func RunVerify(c *world.Case) Outcome {
 // cases: the exported settings are overwritten the way a caller re-using the value would do it.
 func RunVerifyShared(c *world.Case, shared *verify.Options) Outcome {
 	o, g := Options(c)
+	// a caller that re-uses an options value keeps the pool and the time set it configured once: when this case trusts the same
+	// certificates (judges at the same instants) as the previous case run through this value, the SAME pool (time set) object stays
+	key := fmt.Sprintf("%x|%v", c.Roots, c.Embedded)
+	var tkey string
+	if o.Now != nil {
+		tkey = fmt.Sprint(*o.Now)
+	}
+	sharedMu.Lock()
+	prev := sharedPrev[shared]
+	sharedMu.Unlock()
+	if prev.roots == key && prev.pool != nil && o.TrustedRoots != nil {
+		o.TrustedRoots = prev.pool
+	}
+	if prev.times == tkey && prev.now != nil && o.Now != nil {
+		o.Now = prev.now
+	}
+	sharedMu.Lock()
+	if len(sharedPrev) > 2048 { // short-lived values pile up; forgetting only means a fresh (equal) pool object next time
+		sharedPrev = map[*verify.Options]sharedSettings{}
+	}
+	sharedPrev[shared] = sharedSettings{roots: key, pool: o.TrustedRoots, times: tkey, now: o.Now}
+	sharedMu.Unlock()
 	shared.GetCollateral, shared.CheckRevocations, shared.Getter, shared.Now, shared.TrustedRoots = o.GetCollateral, o.CheckRevocations, g, o.Now, o.TrustedRoots
 	return runVerify(c, shared, g)
 }
+
+type sharedSettings struct {
+	roots, times string
+	pool         *x509.CertPool
+	now          *verify.TimeSet
+}
+
+// sharedPrev remembers, per re-used options value, the pool and time set objects last configured on it.
+var (
+	sharedMu   sync.Mutex
+	sharedPrev = map[*verify.Options]sharedSettings{}
+)
 
 func runVerify(c *world.Case, o *verify.Options, g *world.Getter) Outcome {
 	var err error
